@@ -79,6 +79,11 @@ func ZZ_C06_Step() {
 	res := ue.ReservedQuota[rg]
 	vx.Assert("(i) balance never negative", after >= 0)
 	vx.Assert("(i) reservation never negative", res >= 0)
+	// The induction over histories treats the reservation the CHF books as real
+	// money. That is only sound if the step keeps the books honest (the
+	// conservation law of C01): otherwise a later grant is "backed" by money
+	// that was already spent.
+	vx.Assert("bookkeeping lemma: reservation' + balance' = reservation + balance - cost x used", res+after == reserved+q-int64(used)*cost)
 	vx.Assert("one unit information per credit-controlled usage entry", len(info) == 1)
 	if len(info) != 1 {
 		return
